@@ -163,3 +163,56 @@ Theorem C03_request_chunked_body_lengths : forall cb g r (cuts : list (list byte
     t_request_message_len t = Z.of_nat (length (bd_chunks_wire ks) + length last) /\ t_request_progress t = c_HTP_REQUEST_COMPLETE.
 Proof. exact sg_request_chunked_counted. Qed.
 Print Assumptions C03_request_chunked_body_lengths.
+
+(* ---- RESPONSE direction, the framings other than Content-Length. (R1) chunk-coded bodies: size lines in SBody's general format (extensions, leading zeros and
+        blanks, upper-case hex, bare-LF line ends), last-chunk line, trailer fields in any folding; (R2) close-delimited bodies: no Content-Length, no
+        Transfer-Encoding, the body ends with the stream (OpClose). EVERY chunking of the response gives the same reported transaction (all fields); the one
+        premise beyond grammar and limits (sr_f1_free) excludes exactly the cuts on which the listed LF-CR finding F1 changes the parse. The chunk-length
+        look-ahead (buffered ++ unconsumed bytes, /repo d2483dd) never fires on a well-formed size line, wherever the cut falls. ---- *)
+Require Import Htp.Proof.PSegResReq Htp.Proof.PSegResChGen Htp.Proof.PSegResCh Htp.Proof.PSegResChRun Htp.Proof.PSegResChThm Htp.Proof.PSegResClose Htp.Proof.PSegResCloseThm.
+Theorem C03_response_chunked_body_chunking : forall cb g rq r (cuts : list (list bytes)) (ks : list bd_chunk) (last : bytes) (tr : list wr_field)
+    (tcuts : list (list bytes)) (chunks1 chunks2 : list bytes),
+  wr_all_ok cb -> g_allow_space_uri g = false -> wr_request_ok rq = true ->
+  sr_response_ok r = true -> sr_cuts_ok r cuts = true -> sr_framed_ch cb g rq r cuts = true -> sr_fits g r cuts = true ->
+  sr_cfbody_ok g r ks last tr tcuts = true ->
+  Forall (fun x => x <> []) chunks1 -> concat chunks1 = sr_wire r cuts (sr_cfbody_wire ks last tr tcuts) ->
+  sr_f1_free (sr_cfbody_wire ks last tr tcuts) (negb (sr_is_nil (sr_lines r cuts))) chunks1 = true ->
+  Forall (fun x => x <> []) chunks2 -> concat chunks2 = sr_wire r cuts (sr_cfbody_wire ks last tr tcuts) ->
+  sr_f1_free (sr_cfbody_wire ks last tr tcuts) (negb (sr_is_nil (sr_lines r cuts))) chunks2 = true ->
+  c03_obs cb g (OpOpen :: OpReqData (wr_request_wire rq) :: map OpResData chunks1) =
+  c03_obs cb g (OpOpen :: OpReqData (wr_request_wire rq) :: map OpResData chunks2).
+Proof. rewrite c03_obs_is_sg_obs. exact sr_response_chunked_two_chunkings. Qed.
+Print Assumptions C03_response_chunked_body_chunking.
+Theorem C03_response_chunked_body_lengths : forall cb g rq r (cuts : list (list bytes)) (ks : list bd_chunk) (last : bytes) (tr : list wr_field)
+    (tcuts : list (list bytes)) (chunks : list bytes),
+  wr_all_ok cb -> g_allow_space_uri g = false -> wr_request_ok rq = true -> sg_fits g rq = true -> g_tx_auto_destroy g = false ->
+  sr_response_ok r = true -> sr_cuts_ok r cuts = true -> sr_framed_ch cb g rq r cuts = true -> sr_fits g r cuts = true ->
+  sr_cfbody_ok g r ks last tr tcuts = true ->
+  Forall (fun x => x <> []) chunks -> concat chunks = sr_wire r cuts (sr_cfbody_wire ks last tr tcuts) ->
+  sr_f1_free (sr_cfbody_wire ks last tr tcuts) (negb (sr_is_nil (sr_lines r cuts))) chunks = true ->
+  exists t, c_txs (fst (cp_run cb g connp_new (OpOpen :: OpReqData (wr_request_wire rq) :: map OpResData chunks))) = [Some t] /\
+    t_response_entity_len t = Z.of_nat (length (bd_chunks_data ks)) /\
+    t_response_message_len t = Z.of_nat (length (bd_chunks_wire ks) + length last) /\
+    t_response_progress t = c_HTP_RESPONSE_COMPLETE /\
+    t_response_headers t = t_response_headers (sr_lrun (sr_trailer_lines tr tcuts) (None, sr_tend (sr_treq cb g rq) r cuts)).
+Proof. exact sr_response_chunked_counted. Qed.
+Print Assumptions C03_response_chunked_body_lengths.
+Theorem C03_response_close_delimited_chunking : forall cb g rq r (cuts : list (list bytes)) (body : bytes) (chunks1 chunks2 : list bytes),
+  wr_all_ok cb -> g_allow_space_uri g = false -> wr_request_ok rq = true ->
+  sr_response_ok r = true -> sr_cuts_ok r cuts = true -> sr_framed_close cb g rq r cuts = true -> sr_fits g r cuts = true ->
+  Forall (fun x => x <> []) chunks1 -> concat chunks1 = sr_wire r cuts body -> sr_f1_free body (negb (sr_is_nil (sr_lines r cuts))) chunks1 = true ->
+  Forall (fun x => x <> []) chunks2 -> concat chunks2 = sr_wire r cuts body -> sr_f1_free body (negb (sr_is_nil (sr_lines r cuts))) chunks2 = true ->
+  c03_obs cb g (OpOpen :: OpReqData (wr_request_wire rq) :: map OpResData chunks1 ++ [OpClose]) =
+  c03_obs cb g (OpOpen :: OpReqData (wr_request_wire rq) :: map OpResData chunks2 ++ [OpClose]).
+Proof. rewrite c03_obs_is_sg_obs. exact sr_response_close_two_chunkings. Qed.
+Print Assumptions C03_response_close_delimited_chunking.
+Theorem C03_response_close_delimited_lengths : forall cb g rq r (cuts : list (list bytes)) (body : bytes) (chunks : list bytes),
+  wr_all_ok cb -> g_allow_space_uri g = false -> wr_request_ok rq = true -> sg_fits g rq = true -> g_tx_auto_destroy g = false ->
+  sr_response_ok r = true -> sr_cuts_ok r cuts = true -> sr_framed_close cb g rq r cuts = true -> sr_fits g r cuts = true ->
+  Forall (fun x => x <> []) chunks -> concat chunks = sr_wire r cuts body ->
+  sr_f1_free body (negb (sr_is_nil (sr_lines r cuts))) chunks = true ->
+  exists t, c_txs (fst (cp_run cb g connp_new (OpOpen :: OpReqData (wr_request_wire rq) :: map OpResData chunks ++ [OpClose]))) = [Some t] /\
+    t_response_entity_len t = Z.of_nat (length body) /\ t_response_message_len t = Z.of_nat (length body) /\
+    t_response_progress t = c_HTP_RESPONSE_COMPLETE.
+Proof. exact sr_response_close_counted. Qed.
+Print Assumptions C03_response_close_delimited_lengths.
